@@ -107,6 +107,19 @@ def rustF64LeOne (text : String) : Bool :=
   | none => false
   | some v => v.denotesLeOne
 
+/-- `number_value(text)` is `Some(end)` with `end <= 1.0` (suspicious_reverse_loop.rs:59-60, 71-77, since
+/repo fe466a6): after a `0x` / `0X` prefix `u64::from_str_radix(rest, 16)` (a non-empty run of hexadecimal
+digits below 2^64; a number token never carries the `+` sign that function would also accept), converted to
+a double, which is `<= 1.0` iff the integer is `≤ 1`; otherwise `parse::<f64>().ok()` as in `rustF64LeOne`. -/
+def numberValueLeOne (text : String) : Bool :=
+  match text.toList with
+  | '0' :: x :: hex =>
+    if x = 'x' || x = 'X' then
+      let rd := readHexDigits hex 0 0
+      rd.2.1 != 0 && rd.2.2.isEmpty && decide (rd.1 < 2 ^ 64) && decide (rd.1 ≤ 1)
+    else rustF64LeOne text
+  | _ => rustF64LeOne text
+
 /-- `text.parse::<f64>() == Ok(0.0)` -/
 def rustF64IsZero (cs : List Char) : Bool :=
   match decimalValue cs with
